@@ -50,6 +50,12 @@ def props_of(mis):
         if ".pfs." in tag or tag.startswith("idx.pfs"):
             out.add("C09")
         return out
+    if head == "BIGQ":
+        if fam in FAMILY_PROP:
+            out.add(FAMILY_PROP[fam])
+        if tag.endswith((".missing", ".pos_out", ".out", ".sym_gt_3")):
+            out.add("C04")
+        return out
     if head == "BIG":
         # positions beyond 2^32: the property of the structure's family; a None / wrong value for
         # an invalid argument is a C04 matter as well
